@@ -120,6 +120,15 @@ static void san_init() {
 }
 static const char* signame(int s) { return s == SIGSEGV ? "SIGSEGV" : s == SIGBUS ? "SIGBUS" : s == SIGFPE ? "SIGFPE" : s == SIGILL ? "SIGILL" : s == SIGTRAP ? "SIGTRAP" : "SIG?"; }
 
+// Dirty the stack region the next call will use, with a Case-dependent pattern (all-ones bytes = NaN / -1 on even Cases, mixed bytes on
+// odd ones): uninitialised reads inside the code under test (e.g. _mm_undefined_*() at -O0) then yield pattern-dependent values.
+static uint64_t g_poison_every = 4;
+__attribute__((noinline)) static void poison_stack(uint64_t k) {
+    unsigned char buf[49152];     // deeper than the frames of the check functions, which hold several KiB of lane arrays
+    std::memset(buf, (k & 2) ? (unsigned char)(0x5B + k * 37) : 0xFF, sizeof buf);
+    asm volatile("" :: "r"(buf) : "memory");
+}
+
 static void run_raw(const VpCase& c, VpOutcome& o) {
     std::memset(&o, 0, sizeof o);
     o.bad_lane = -1;
@@ -128,6 +137,7 @@ static void run_raw(const VpCase& c, VpOutcome& o) {
     // every Case starts from the default floating-point environment (a Case that leaves it changed is C11's business
     // and is detected inside the check; it must not leak into the next Case)
     _mm_setcsr(0x1F80);
+    if ((g_case_serial % g_poison_every) == 0) poison_stack(g_case_serial / g_poison_every);
     if (sigsetjmp(g_jmp, 1) == 0) {
         g_in_run = 1;
         vp_run(&c, &o);
@@ -296,7 +306,8 @@ static bool account(const VpCase& c, bool allow_minimise = true) {
     return false;
 }
 
-static void emit_cb(const VpCase* c, void*) { account(*c); }
+static uint64_t g_enum_stride = 1, g_enum_phase = 0, g_enum_counter = 0;
+static void emit_cb(const VpCase* c, void*) { if (g_enum_stride > 1 && (g_enum_counter++ % g_enum_stride) != g_enum_phase) return; account(*c); }
 static std::string g_mode_name; static uint64_t g_seed_value;
 static void write_json(const std::string& path, const std::string& mode, uint64_t seed, double wall);
 static void finish_now() { write_json(g_out_path, g_mode_name, g_seed_value, 0.0); fflush(nullptr); _exit(1); }
@@ -682,6 +693,8 @@ int main(int argc, char** argv) {
         else if (a == "--regress") regress_file = next();
         else if (a == "--max-failures") g_max_failures = strtoull(next().c_str(), 0, 10);
         else if (a == "--ub-violation") g_ub_is_violation = atoi(next().c_str()) != 0;
+        else if (a == "--enum-stride") g_enum_stride = strtoull(next().c_str(), 0, 10);
+        else if (a == "--poison-every") { g_poison_every = strtoull(next().c_str(), 0, 10); if (!g_poison_every) g_poison_every = 1; }
     }
     g_targets = vp_targets(&g_ntargets);
     g_ops = vp_ops(&g_nops);
@@ -689,6 +702,7 @@ int main(int argc, char** argv) {
     g_class_counts.assign(g_nclasses, 0);
     auto t0 = std::chrono::steady_clock::now();
     g_out_path = out; g_mode_name = mode; g_seed_value = seed;
+    if (g_enum_stride > 1) g_enum_phase = seed % g_enum_stride;
     if (mode != "list") san_init();
     if (mode == "list") {
         for (uint32_t i = 0; i < g_ntargets; ++i) printf("target %u %s present=%u\n", i, g_targets[i].name, g_targets[i].present);
